@@ -3,6 +3,7 @@ package simrt
 import (
 	"encoding/binary"
 	"os"
+	"runtime"
 	"time"
 
 	"github.com/oklog/ulid/v2"
@@ -148,4 +149,33 @@ func LookupEnv(key, site string) (string, bool) {
 		return "1", true
 	}
 	return v, ok
+}
+
+// GOMAXPROCS / NumCPU replace runtime.GOMAXPROCS(n) / runtime.NumCPU(): the
+// number of processors is ambient, not an argument. A query (n <= 0) returns a
+// tape-chosen value out of 1, 2, 4, 16 when the ambient fault family is on, so
+// that size- or parallelism-dependent paths ("only above 2 procs") are entered
+// under simulation too. A setter call is passed through.
+//
+//go:norace
+func GOMAXPROCS(n int, site string) int {
+	if n > 0 {
+		return runtime.GOMAXPROCS(n)
+	}
+	return ambientProcs(runtime.GOMAXPROCS(0), site)
+}
+
+//go:norace
+func NumCPU(site string) int { return ambientProcs(runtime.NumCPU(), site) }
+
+//go:norace
+func ambientProcs(real int, site string) int {
+	s := cur
+	if s == nil || s.cfg.ClockDen == 0 {
+		return real
+	}
+	v := []int{1, 2, 4, 16}[s.draw(4)]
+	s.fault("env.procs")
+	s.event(site, "env.procs", int64(v))
+	return v
 }
